@@ -79,6 +79,8 @@ def on_axis_probe(ctx, n: int) -> None:
 
 
 def run(ctx) -> None:
+    import context_probes as CP
+    CP.in_segment_probe(ctx, "C07", ctx.n(27, 600), classes=["BmadxDrift", "BmadxQuadrupole", "BmadxDipole", "TransverseDeflectingCavity"], off=0.3)
     on_axis_probe(ctx, ctx.n(12, 300))
     report_mismatches(ctx.report, "C07", run_bmadx_correspondence(ctx, "C07", ctx.n(30, 600)))
     if F is not None:
@@ -86,6 +88,9 @@ def run(ctx) -> None:
 
 
 def corpus_case(ctx, r: dict) -> None:
+    if r.get("kind") == "in_segment":
+        import context_probes as CP
+        return CP.in_segment_case(ctx.report, "C07", r)
     if r.get("kind") == "on_axis":
         return on_axis_case(ctx.report, r)
     if F is not None and hasattr(F, "corpus_case"):
